@@ -27,8 +27,9 @@ import common as C  # noqa: E402
 import exedriver    # noqa: E402
 from floatcmp import f2b, b2f  # noqa: E402
 
-GEN = []
-PROPS = ['FinVerif.Props.C19a', 'FinVerif.Props.C19b', 'FinVerif.Props.C19c', 'FinVerif.Props.C19d', 'FinVerif.Props.C19e']
+GEN = ['ShortRateR', 'Effects']    # meanr / variancer / zero_price of vasicek_mc.py, cir_montecarlo.py (Props/C19g); effect summaries (Props/C19h)
+PROPS = ['FinVerif.Props.C19a', 'FinVerif.Props.C19b', 'FinVerif.Props.C19c', 'FinVerif.Props.C19d', 'FinVerif.Props.C19e',
+         'FinVerif.Props.C19f', 'FinVerif.Props.C19g', 'FinVerif.Props.C19h']
 DRIVERS = ['FinVerif.Driver.C19']
 
 RULE = ('correspondence: for each modelled kernel, cases (parameters, seed, path/step counts) drawn from VERIF_SEED; the '
@@ -319,6 +320,7 @@ def _run(ctx, drivers_ok, bseeds, procs):
     P.correspondence(ctx, drivers_ok and parity['ok'], quick)
     P.reproducibility(ctx, bseeds, procs, quick)
     P.structure_oracles(ctx, quick)
+    P.moment_structure_oracles(ctx, quick)
     P.vanilla_stats(ctx, st, quick)
     P.path_stats(ctx, st, quick)
     P.product_stats(ctx, st, quick)
@@ -347,7 +349,7 @@ def _run(ctx, drivers_ok, bseeds, procs):
         'sample sizes are chosen so the normal approximation of pair means is adequate',
     ]
     return C.finish(ctx, 'proof',
-                    'lake build FinVerif.Props.C19a FinVerif.Props.C19b FinVerif.Props.C19c FinVerif.Props.C19d FinVerif.Props.C19e && lake env lean .cache/audit/Audit_C19.lean',
+                    'lake build ' + ' '.join(PROPS) + ' && lake env lean .cache/audit/Audit_C19.lean',
                     C.TRUSTED_BASE_COMMON + ['hand-written model FinVerif/Model/C19.lean + C19F.lean, tied to the compiled kernels by '
                                              'the draw-for-draw correspondence of this run (NumPy regenerates the draws)',
                                              'Spec/C19.lean: exact GBM transition, Euler conditional mean, flat-hazard survival '
